@@ -39,3 +39,17 @@ Print Assumptions C13_snps_counter_is_generic.
 Theorem C13_snps_ordered : forall counts, sorted (snp * nat) snp_lt (ssort (snp * nat) snp_lt counts).
 Proof. exact snps_agg_ordered. Qed.
 Print Assumptions C13_snps_ordered.
+
+(* variants / sam variants: the aggregator's key (representation, position, kind, alleles, residue, feature, length) has
+   a deciding equality, its counting list is the generic one on that key, so the two generic theorems above apply *)
+From GF Require Import CodonModel Indels VariantsModel AggregateVariants.
+Theorem C13_variants_counts : forall (mk : variant -> akey) (lists : list (list variant)) k,
+  cget pkey pkey_eqb k (map pj (fold_left (fun cs l => fold_left (fun cs v => count_key (mk v) cs) l cs) lists [])) =
+  total_occ pkey pkey_eqb k (map (map (fun v => akey_proj (mk v))) lists).
+Proof. exact variants_aggregate_counts. Qed.
+Print Assumptions C13_variants_counts.
+
+Theorem C13_variants_each_mutation_once : forall (mk : variant -> akey) (lists : list (list variant)),
+  keys_distinct pkey (map pj (fold_left (fun cs l => fold_left (fun cs v => count_key (mk v) cs) l cs) lists [])).
+Proof. exact variants_aggregate_once. Qed.
+Print Assumptions C13_variants_each_mutation_once.
